@@ -48,7 +48,7 @@ pub mod verif_hooks {
     }
     pub use crate::parse::{verif_convert_scopes, verif_parse_expr, verif_parse_value, verif_positions};
     pub use crate::binding_map::verif_run_collector;
-    pub use crate::proc_gen::verif::{proc_gen_expr, VerifScope};
+    pub use crate::proc_gen::verif::{proc_gen_expr, writer_trace_start, writer_trace_take, VerifScope};
     pub fn entities_decode(s: &str) -> Option<String> {
         crate::entities::decode(s).map(|x| x.into_owned())
     }
